@@ -37,10 +37,12 @@ D_NAIVE = "Tue, 01 Jan 2030 00:01:30"          # no zone: read as UTC (pinned by
 D_MINUS0 = "Tue, 01 Jan 2030 00:01:30 -0000"   # RFC 5322 "-0000": UTC, no zone information
 D_9999_W1 = "Fri, 31 Dec 9999 23:59:59 -0100"   # later than datetime.max once expressed in UTC
 D_9999_W5 = "Fri, 31 Dec 9999 20:00:00 -0500"
+D_ASC = "Tue Jan  1 00:01:30 2030"              # asctime form of an HTTP-date (no comma, GMT)
+D_RFC850 = "Tuesday, 01-Jan-30 00:01:30 GMT"    # obsolete RFC 850 form
 DATES = {D_PAST: 0.0, D_NOW: 0.0, D_FUT: 90.0, D_9999: None, D_NAIVE: 90.0, D_MINUS0: 90.0,
-         D_9999_W1: None, D_9999_W5: None}
+         D_9999_W1: None, D_9999_W5: None, D_ASC: 90.0}
 TOKENS = ["", " ", "\t", "0", "1", "7", "120", "9" * 308, "9" * 309, "9" * 4300, "9" * 4301, "+",
-          "-", "_", ".", "e", "x", "٣", "²", "\x00", D_PAST, D_NOW, D_FUT, D_9999, D_NAIVE, D_MINUS0, D_9999_W1, D_9999_W5, "Mon, ",
+          "-", "_", ".", "e", "x", "٣", "²", "\x00", D_PAST, D_NOW, D_FUT, D_9999, D_NAIVE, D_MINUS0, D_9999_W1, D_9999_W5, D_ASC, "Mon, ",
           "01 Jan 2035 ", "00:00:00 ", "GMT", "+0000", "+9999", "+99999999999999"]
 NONSTR = [None, 5, 5.5, True, False, 10 ** 400, -(10 ** 400), math.nan, math.inf, -math.inf, -3,
           0, b"5", ["5"], (5,), {"a": 1}, "OBJ"]
@@ -314,7 +316,7 @@ def run_end_to_end(task, seed):
     import redress.policy.runner.sync_core as _sc
     _sc.ThreadPoolExecutor = _cf.ThreadPoolExecutor   # the real executor (another task may have
     # installed the owned one in this worker process)
-    hints = [0, 1, 3, 0.125, 0.375, "2", "80", 99.5, D_FUT, None]
+    hints = [0, 1, 3, 0.125, 0.375, "2", "80", 99.5, D_FUT, None, 0.0005, 1e-7]
     for h, jit, fr, dl, is_async, at, bs in itertools.product(
             hints, [0.0, 2 * TAU, -1.0, math.inf, math.nan, 1e308], [0.0, 0.5, 1.0],
             [None, 2 * TAU, 100.0, 86400.0 + 60.0],
